@@ -397,6 +397,7 @@ struct Rig {
     client: ClockBoundClient,
     order_checks: u64,
     order_violations: Vec<String>,
+    calls: u64,
 }
 
 impl Rig {
@@ -407,7 +408,7 @@ impl Rig {
         let mut writer = ShmWriter::new(&path).expect("ShmWriter::new");
         writer.write(&ClockErrorBound::default());
         let client = ClockBoundClient::new_with_path(path.to_str().unwrap()).expect("client");
-        Rig { dir, writer, client, order_checks: 0, order_violations: Vec::new() }
+        Rig { dir, writer, client, order_checks: 0, order_violations: Vec::new(), calls: 0 }
     }
 
     fn eval(&mut self, v: &Vector) -> Outcome {
@@ -423,7 +424,16 @@ impl Rig {
         clock::fixed::set(v.real, v.mono);
         let client = &mut self.client;
         let _ = clock::fixed::take_order();
+        // What the call inherits from its caller must not matter: the thread's errno cycles through
+        // values an earlier, unrelated system call may have left; the work the call does is metered.
+        self.calls += 1;
+        vworld::meter::begin_call();
+        vworld::meter::set_errno(vworld::meter::ERRNOS[(self.calls % vworld::meter::ERRNOS.len() as u64) as usize]);
         let answer = catch_unwind(AssertUnwindSafe(|| client.now()));
+        if let Some(msg) = vworld::meter::end_call() {
+            let _ = clock::fixed::take_order();
+            return Outcome::Panic(format!("unbounded work, no return: {} (errno was {} when the call was made)", msg, vworld::meter::ERRNOS[(self.calls % vworld::meter::ERRNOS.len() as u64) as usize]));
+        }
         // C12: whatever path now() takes, the monotonic clock is read after the realtime clock.
         let order = clock::fixed::take_order();
         let last_real = order.iter().rposition(|c| *c == libc::CLOCK_REALTIME);
@@ -811,6 +821,13 @@ fn main() {
     }
 
     clock::fixed::install();
+    // Hostile caller state, by shard: signals arriving on the calling thread (no SA_RESTART), and a
+    // standard error that refuses every write.
+    let hostile_signals = mode == "sweep" && shard % 2 == 1;
+    let hostile_stderr = mode == "sweep" && shard % 4 >= 2 && vworld::meter::stderr_unwritable();
+    if hostile_signals {
+        vworld::meter::start_signals(400);
+    }
     let mut rig = Rig::new();
     let blur = calibrate_blur(&mut rig);
     BLUR_NS.store(blur, std::sync::atomic::Ordering::Relaxed);
@@ -901,7 +918,9 @@ fn main() {
         }
     }
     drop(rig);
+    vworld::meter::stop_signals();
     let out = json!({
+        "hostile": {"errno_values": vworld::meter::ERRNOS.len(), "signals": hostile_signals, "signals_delivered": vworld::meter::SIGNALS_DELIVERED.load(std::sync::atomic::Ordering::Relaxed), "stderr_unwritable": hostile_stderr},
         "evaluations": evaluations, "distinct": distinct.len(), "distinct_capped": distinct.len() >= DISTINCT_CAP, "cells": cells, "outcomes": outcomes, "chain_checks": chain_checks,
         "violations": violations, "samples": samples, "virtual_clock_reads": clock::virtual_reads(), "blur_ns": blur, "clock_order_checks": order_checks,
         "wall_s": (clock::real_clock_ns(libc::CLOCK_MONOTONIC) - t0) as f64 / 1e9,
